@@ -43,11 +43,9 @@ package locking
 //@   before_call Remove#1 [removes_own_lock] !has(fsIsFile, lockPath) || !has(alive, lockCreator) || lockCreator == me
 //@   ensures [released] err == nil ==> !has(fsIsFile, lockPath)
 
-// The model's lock path is the path of the locker the command creates; its directory (the workspace cache root) exists and
-// this process is alive while it runs (model facts, assumed here).
+// One lock file per workspace: the locker's path is a function of the configured grog root and the workspace root path
+// only (never of the working directory or of the process).
 //@ func NewWorkspaceLocker() (r)
-//@   trusted
 //@   pure
 //@   allocates r
-//@   ensures [model] r != nil && r.lockFilePath == lockPath && has(fsIsDir, dirOf(lockPath)) && has(alive, me) && me > 0 &&
-//@        (has(fsIsFile, lockPath) ==> lockCreator > 0 && (select(fsData, lockPath) == "" || select(fsData, lockPath) == itoa(lockCreator)))
+//@   ensures [one_lock_path_per_workspace] r != nil && r.lockFilePath == pathJoin(pathJoin(config.Global.Root, wsCachePrefix(config.Global.WorkspaceRoot)), "lockfile")
